@@ -137,6 +137,35 @@ def explore(ctx):
                 s.append(scn.cancel(c) if how == "cancel" else "await/c%d" % c)
             s += ["stallw/off", "settle", scn.cancel(1), scn.cancel(2), "settle"]
             lines.append(scn.line("scn", "q%d" % rep, s, extra="nt=1 family=cancel-behind-stuck-writer"))
+        # bursts of cancellations of calls whose frames are on the wire, while the writer is stuck inside Write and drains
+        # one frame at a time: every one of them must be followed by its cancellation frame once the peer reads again
+        for rep in range({"quick": 10, "thorough": 120, "search": 24}[tier]):
+            how = rng.choice(["cancel", "cancel", "deadline"])
+            nw = 4 + rng.below(6)
+            s = []
+            for c in range(1, nw + 1):
+                s.append(scn.call(c, timeout=(400 if how == "deadline" else 0)))
+            s += ["stallw/on", scn.call(nw + 1, nowait=True), "waitinwrite"]
+            todo = list(range(1, nw + 1))
+            if rng.chance(1, 2):
+                todo = rng.shuffle(todo)
+            if how == "deadline":
+                s.append("sleep/450")
+                for c in todo:
+                    s.append("await/c%d" % c)
+                for _ in range(rng.below(3)):
+                    s += ["stepw/1", "sleep/1"]
+            else:
+                while todo:
+                    b = 1 + rng.below(min(4, len(todo)))
+                    for c in todo[:b]:
+                        s.append(scn.cancel(c))
+                    todo = todo[b:]
+                    s.append("sleep/1")
+                    if rng.chance(2, 3):
+                        s += ["stepw/1", "sleep/1"]
+            s += ["stallw/off", "settle", scn.cancel(nw + 1), "settle"]
+            lines.append(scn.line("scn", "u%d" % rep, s, extra="nt=1 family=cancel-bursts-behind-busy-writer"))
         k = 0
         for rep in range({"quick": 2, "thorough": 20, "search": 4}[tier]):
             for when in ("inflight", "afterwrite"):
